@@ -173,6 +173,12 @@ def analyse(meta, res, genpath):
             s = prim[0]
             where_line = s["line_start"]
             clause = " ".join(t["text"][t["highlight_start"] - 1:t["highlight_end"] - 1] if len(s["text"]) == 1 else t["text"].strip() for t in s["text"])
+        if kind == "invariant":
+            # at a `continue` / `break` the primary span is the jump; the clause is the span labelled "failed this invariant"
+            inv = [s for s in own if "failed this invariant" in (s.get("label") or "")]
+            if inv and not (prim and prim[0] in inv):
+                where_line = inv[0]["line_start"]
+                clause = " ".join(t["text"].strip() for t in inv[0]["text"]) + " :: at " + clause
         if kind == "pre":
             # the violated clause is in the secondary span (callee's requires), if it lies in this file
             sec = [s for s in own if not s.get("is_primary")]
